@@ -442,7 +442,8 @@ func (U *Universe) prelude() string {
 	done := map[string]bool{}
 	var recs []*StructInfo
 	for _, si := range U.structs {
-		if si.Sum == "" {
+		// struct types of other packages (os.File, ...) are only ever handled through pointers and models
+		if si.Sum == "" && !strings.Contains(si.Name, ".") {
 			recs = append(recs, si)
 		}
 	}
